@@ -65,13 +65,18 @@ FbShapes == <<
   << <<1, 4, 4>>, <<>>,                     <<C3(1, "relu")>>,                        <<D(2, "linear", FALSE)>> >>,
   << <<1, 3, 3>>, <<>>,                     <<T3x(1, "linear")>>,                     <<>> >>,
   << <<1, 4, 4>>, <<C3(1, "relu")>>,        <<C3(1, "linear"), T3x(1, "relu")>>,      <<>> >>,
-  << <<4>>,       <<D(4, "linear", TRUE)>>, <<D(4, "relu", FALSE), D(4, "linear", TRUE)>>, <<D(3, "relu", FALSE)>> >>
+  << <<4>>,       <<D(4, "linear", TRUE)>>, <<D(4, "relu", FALSE), D(4, "linear", TRUE)>>, <<D(3, "relu", FALSE)>> >>,
+  << <<4>>,       <<D(4, "linear", TRUE)>>, <<D(4, "relu", TRUE)>>,                         <<D(2, "linear", FALSE)>>, <<D(4, "linear", FALSE), D(4, "relu", TRUE)>> >>,
+  << <<1, 4, 4>>, <<>>,                     <<C3(1, "linear")>>,                      <<D(2, "linear", TRUE)>>,  <<C3(1, "relu")>> >>
 >>
 FbNet(s, loops, inskips, outskips, acc) ==
   LET pre  == Build(s[1], s[2])
       P    == IF pre.layers = <<>> THEN pre.input ELSE pre.layers[Len(pre.layers)].out
       blk  == MkBlock(s[3], P, loops, inskips, outskips, acc)
-      mid  == [pre EXCEPT !.layers = Append(pre.layers, blk)]
+      \* entries with a fifth component carry a SECOND block (its own parameters) right after the first
+      mid  == IF Len(s) = 5
+                THEN [pre EXCEPT !.layers = pre.layers \o <<blk, MkBlock(s[5], blk.out, loops, inskips, outskips, acc)>>]
+                ELSE [pre EXCEPT !.layers = Append(pre.layers, blk)]
       \* a dense layer after a spatial block makes the block flatten its output
       flat == s[4] # <<>> /\ Len(blk.out) = 3
       mid2 == IF flat THEN [mid EXCEPT !.layers[Len(mid.layers)].flatten = TRUE] ELSE mid
@@ -96,7 +101,7 @@ Init ==
   /\ CASE Mode = "skip" -> \E k \in NetSel : net = SkipNets[k] /\ cfgv = [netid |-> k]
        [] Mode = "loop" -> \E k \in NetSel : net = LoopNets[k] /\ cfgv = [netid |-> k]
        [] Mode = "fb"   -> \E k \in NetSel, loops \in 1..MaxLoops, isk \in BOOLEAN, osk \in BOOLEAN, acc \in Accs :
-                              /\ acc = "multiply" => loops <= 2           \* products of more factors leave the exact range
+                              /\ acc = "multiply" => (loops <= 2 /\ Len(FbShapes[k]) = 4)   \* products of more factors leave the exact range
                               /\ net = FbNet(FbShapes[k], loops, isk, osk, acc)
                               /\ cfgv = [netid |-> k, loops |-> loops, inskips |-> isk, outskips |-> osk, acc |-> acc]
 
@@ -188,8 +193,37 @@ EvalLoop(seed) ==
   [seed |-> seed, x |-> X,
    predict |-> [a \in {b \in Accs : b # "multiply" \/ \A lp \in net.loops : lp.iterations = 1} |->
                   [acc |-> a, y |-> Predict([net EXCEPT !.loopacc = a], X)]]]
+\* every feedback block replaced by its layer list repeated `loops` times (valid without skips: FbIsRepetition)
+RECURSIVE UnrollFrom(_, _)
+UnrollFrom(layers, k) ==
+  IF k > Len(layers) THEN <<>>
+  ELSE LET L == layers[k] IN
+       (IF L.kind = "fb"
+          THEN LET RECURSIVE Times(_)
+                   Times(t) == IF t = 0 THEN <<>> ELSE L.inner \o Times(t - 1)
+                   un == Times(L.loops)
+               IN [j \in 1..Len(un) |-> IF j = Len(un) THEN [un[j] EXCEPT !.flatten = L.flatten] ELSE un[j]]
+          ELSE <<L>>) \o UnrollFrom(layers, k + 1)
+UnrollAll(n) == [n EXCEPT !.layers = UnrollFrom(n.layers, 1)]
+\* how many unrolled layers each layer of the network stands for
+Layout(n) == [k \in 1..Len(n.layers) |-> IF n.layers[k].kind = "fb" THEN n.layers[k].loops * Len(n.layers[k].inner) ELSE 1]
+
 EvalFb(seed) ==
-  LET X == InputOf(net, seed) IN [seed |-> seed, x |-> X, y |-> Predict(net, X)]
+  LET X == InputOf(net, seed)
+      plain == ~cfgv.inskips /\ ~cfgv.outskips
+      U == UnrollAll(net)
+      kf == plain /\ KinkFree(U, X)
+      G == UpstreamOf(net, seed)
+  IN [seed |-> seed, x |-> X, y |-> Predict(net, X), g |-> G, layout |-> Layout(net),
+      kinkfree |-> kf,
+      \* C01: per-copy parameter gradients of a block without internal skips = those of the unrolled network
+      ugrads |-> IF kf THEN Backward(U, X, G).grads ELSE <<>>,
+      ubias |-> [j \in 1..Len(U.layers) |-> U.layers[j].kind = "dense" /\ U.layers[j].cfg.bias]]
+
+\* C01 (feedback blocks without internal skips): the gradients of the unrolled network are exact derivatives
+FbGradIsDerivative ==
+  (Mode = "fb" /\ phase = "done" /\ CheckFD /\ ~cfgv.inskips /\ ~cfgv.outskips) =>
+    \A seed \in DataSeeds : GradOK(UnrollAll(net), InputOf(net, seed), UpstreamOf(net, seed))
 
 Emit ==
   phase = "done" =>
